@@ -24,6 +24,11 @@ BD == INSTANCE Bed
 TokSet(ts) == { ts[i] : i \in 1..Len(ts) }
 NoD == <<>>
 BadD == <<0 - 1>>
+\* Newick: the machine runs with "every token after ':' is a number"; the float table then decides where the real parser
+\* must have failed (a tree containing a distance token that ParseFloat rejects is an error item, and the last one)
+NWDistText(x) == x
+NWDistOf(tok) == tok
+NW == INSTANCE Newick WITH DistText <- NWDistText, DistOf <- NWDistOf, NoDist <- NoD, BadDist <- BadD
 
 \* generic projection of the specifications' items
 GRec(fs) == [k |-> "rec", f |-> fs]
@@ -42,6 +47,19 @@ SmRealG(its) == [i \in 1..Len(its) |->
                                <<f[8 + 4 * j], f[9 + 4 * j], IF f[9 + 4 * j] = SM!Tyf THEN <<>> ELSE f[10 + 4 * j]>>]))]
 BdG(its) == [i \in 1..Len(its) |-> IF its[i].k = "err" THEN GErr ELSE GRec(<<BD!DecText(its[i].n)>> \o its[i].f)]
 
+\* nodes as (depth text, name, has-a-non-zero-distance)
+NwSpecG(t, Z) == GRec(FlattenSeq([i \in 1..Len(t) |-> <<BD!DecText(t[i].d), t[i].name,
+                                                        IF t[i].dist # NoD /\ t[i].dist \notin Z THEN <<1>> ELSE <<>> >>]))
+NwRealG(it) == IF it.k # "rec" THEN it
+               ELSE GRec(FlattenSeq([i \in 1..(Len(it.f) \div 3) |-> <<it.f[3 * i - 2], it.f[3 * i - 1],
+                                                                        IF it.f[3 * i] # <<48>> THEN <<1>> ELSE <<>> >>]))
+NwExpected(in, F, Z) ==
+  LET m == NW!Machine(in)
+      badTree(t) == \E i \in 1..Len(t) : t[i].dist # NoD /\ t[i].dist \notin F
+      B == { k \in 1..Len(m.trees) : badTree(m.trees[k]) }
+      cut == IF B = {} THEN Len(m.trees) ELSE (CHOOSE k \in B : \A j \in B : k <= j) - 1
+  IN [k \in 1..cut |-> NwSpecG(m.trees[k], Z)] \o (IF B # {} \/ m.err THEN <<GErr>> ELSE <<>>)
+
 Drift(e) ==
   LET F == TokSet(e.floats)
       FloatOK(v) == v \in F
@@ -51,6 +69,7 @@ Drift(e) ==
        [] e.fmt = "sam"   -> SmRealG(e.items) # SmG(SM!Denote(e.bytes, "records", FloatOK))
        [] e.fmt = "samh"  -> SmRealG(e.items) # SmG(SM!Denote(e.bytes, "header", FloatOK))
        [] e.fmt = "bed"   -> e.items # BdG(BD!Denote(e.bytes, U8))
+       [] e.fmt = "newick" -> [i \in 1..Len(e.items) |-> NwRealG(e.items[i])] # NwExpected(e.bytes, F, TokSet(e.fzero))
        [] OTHER -> FALSE
 
 Free(s, B) == \A i \in 1..Len(s) : s[i] \notin B
